@@ -146,7 +146,9 @@ int cp_ecss_ver(bn_t e, bn_t s, const uint8_t *msg, size_t len, const ec_t q) {
 		ec_curve_get_ord(n);
 
 		if (bn_sign(e) == RLC_POS && bn_sign(s) == RLC_POS && !bn_is_zero(s)) {
-			if (bn_cmp(e, n) == RLC_LT && bn_cmp(s, n) == RLC_LT) {
+			/* The public key is a point of the curve other than the identity. */
+			if (bn_cmp(e, n) == RLC_LT && bn_cmp(s, n) == RLC_LT &&
+					ec_on_curve(q) && !ec_is_infty(q)) {
 				ec_mul_sim_gen(p, s, q, e);
 				ec_get_x(rv, p);
 
